@@ -387,6 +387,16 @@ control("C05", "derived quantities validate each unit string only once",
         [(Q, "                    unit_database.CheckQuantityTypeUnit(category_info.quantity_type, unit)\n\n        return ObtainQuantity(", "                    if unit != category_info.default_unit:\n                        unit_database.CheckQuantityTypeUnit(category_info.quantity_type, unit)\n\n        return ObtainQuantity(")], "C05.R8")
 control("C17", "template validation skips systems registered before a template existed",
         [(USM, "        for unit_system in list(self._unit_systems.values()):\n            current_units_mapping = unit_system.GetUnitsMapping()", "        for unit_system in list(self._unit_systems.values())[1:]:\n            current_units_mapping = unit_system.GetUnitsMapping()")], "C17.R2")
+control("C07", "unpickling takes a shortcut that drops the exponent",
+        [(Q, "    unknown_unit_caption = state.pop(-1)\n", "    unknown_unit_caption = state.pop(-1)\n    if len(state) == 1:\n        category, (unit, _exp) = state[0]\n        return ObtainQuantity(unit, category, unknown_unit_caption)\n")], "C07.R8")
+control("C18", "Fraction.__init__ truncates the scaled numerator",
+        [(FR, "        a = round(a)\n", "        a = int(a)\n")], "C18.R2")
+control("C08", "FractionValue.__lt__ compares the whole parts first",
+        [(FV, "        return float(self) < float(other)", "        return self._number < other._number or float(self) < float(other)")], "C08.R6")
+control("C16", "legacy spellings resolve their default category from the quantity type only",
+        [(UD, "            unit_info = self.unit_to_unit_info[fixed_unit]\n        category = unit_info.default_category", "            category = self.GetQuantityType(fixed_unit)\n            if category in self.categories_to_quantity_types:\n                return category\n            return None\n        category = unit_info.default_category")], "C16.R6")
+control("C20", "joined exponents computed over adjacent runs only",
+        [(Q, "                existing = ret.get(unit, 0)\n                ret[unit] = existing + exp\n            self._composing_units_joining_exponents = tuple(ret.items())", "                ret[len(ret)] = (unit, exp)\n            self._composing_units_joining_exponents = tuple(ret.values())")], "C20.R5")
 # ------------------------------------------------------------------------------------------ running
 def _apply(edits):
     overlay = {}
